@@ -34,6 +34,13 @@ ASSUMPTIONS = [
 # declared type -> (information_schema data_type, describe type, numeric precision, scale, char length, type_code)
 TYPES = {
     "INT": ("NUMBER", "NUMBER(38,0)", 38, 0, None, 0),
+    "NUMBER": ("NUMBER", "NUMBER(38,0)", 38, 0, None, 0),
+    "BIGINT": ("NUMBER", "NUMBER(38,0)", 38, 0, None, 0),
+    # a precision without a scale, and an explicit scale of 0: the declared precision is what the views report
+    "NUMBER(10)": ("NUMBER", "NUMBER(10,0)", 10, 0, None, 0),
+    "DECIMAL(18)": ("NUMBER", "NUMBER(18,0)", 18, 0, None, 0),
+    "NUMERIC(1)": ("NUMBER", "NUMBER(1,0)", 1, 0, None, 0),
+    "NUMBER(9,0)": ("NUMBER", "NUMBER(9,0)", 9, 0, None, 0),
     "NUMBER(10,2)": ("NUMBER", "NUMBER(10,2)", 10, 2, None, 0),
     "NUMBER(20,5)": ("NUMBER", "NUMBER(20,5)", 20, 5, None, 0),
     "NUMBER(30,15)": ("NUMBER", "NUMBER(30,15)", 30, 15, None, 0),
@@ -63,7 +70,7 @@ def _qp(part: str) -> str:
 
 def _fqn(k: tuple) -> str:
     return ".".join(_qp(p) for p in k)
-TABS = ["T1", "T2", "T3"]
+TABS = ["T1", "T2", "T3", "ofs_t"]  # the last one is a quoted lower-case name that only *looks* like an internal table (_fs_..)
 COLN = ["A", "B", "C", "D", "E"]
 
 
@@ -88,6 +95,20 @@ def gen_cases(tier: str, seed: int):
                          ["create_table", db, sc, t, [["A", "INT", False], ["B", "VARCHAR(10)", False]], None, True, False, False],
                          ["comment_on", db, sc, t, "new"], ["drop_table", db, sc, t],
                          ["create_table", db, sc, t, [["A", "VARCHAR", False]], None, False, False, False]]}
+    # user tables whose names resemble the internal ones are user tables: listed everywhere, with their keys
+    yield {"steps": [["create_table", "DB2", "S1", "ofs_t", [["A", "INT", False], ["B", "VARCHAR(10)", False]], "looks internal", False, True, False],
+                     ["create_table", "DB2", "S1", "T1", [["A", "INT", False]], None, False, True, False],
+                     ["create_table", "DB1", "S2", "ofs_t", [["A", "VARCHAR(255)", False]], None, False, True, False],
+                     ["comment_on", "DB2", "S1", "ofs_t", "new"], ["add_column", "DB2", "S1", "ofs_t", "C", "VARCHAR(10)"]]}
+    wide = [["A", "VARCHAR(10)", False], ["B", "VARCHAR(255)", False], ["N", "NUMBER(10)", False]]
+    for again in (["create_table", "DB1", "S2", "T1", [["A", "VARCHAR", False], ["N", "INT", False]], None, False, False, False],
+                  ["ctas", "DB1", "S2", "T1", "DB1", "S1", "T2", False], ["clone", "DB1", "S2", "T1", "DB1", "S1", "T2", False]):
+        src = ["create_table", "DB1", "S1", "T2", [["A", "VARCHAR", False], ["B", "VARCHAR", False]], None, False, False, False]
+        yield {"steps": [src, ["create_table", "DB1", "S2", "T1", wide, "first holder of the name", False, False, False],
+                         ["rename_table", "DB1", "S2", "T1", "T9"], again, ["drop_table", "DB1", "S2", "T1"], again]}
+        yield {"steps": [src, ["create_table", "DB1", "S2", "T1", wide, "first holder of the name", False, False, False],
+                         ["recreate_schema", "DB1", "S2", "-"], again, ["recreate_schema", "DB1", "S2", "-"],
+                         ["create_table", "DB1", "S2", "T1", wide, "", False, False, False], ["recreate_schema", "DB1", "S2", "-"], again]}
     yield {"steps": [["create_table", "DB1", "S1", "T1", [["A", "VARCHAR(10)", False]], "c1", False, False, False], ["set_comment", "DB1", "S1", "T1", "old"],
                      ["comment_on", "DB1", "S1", "T1", "new"], ["noop", "DB1", "S1", "T1", "set_var"], ["noop", "DB1", "S1", "T1", "set_tag"],
                      ["create_table", "DB1", "S1", "T1", [["A", "INT", False]], "c2", True, False, False], ["noop", "DB1", "S1", "T1", "cluster_by"],
@@ -145,8 +166,12 @@ def gen_cases(tier: str, seed: int):
                 steps.append(["rename_table", db, sc, t, r.choice(TABS + ["T9"])])
             elif x < 0.86:
                 steps.append([r.choice(["comment_on", "set_comment"]), db, sc, t, r.choice(["new", "other", ""])])
-            elif x < 0.90:
+            elif x < 0.885:
                 steps.append(["create_view", db, sc, r.choice(["V1", "V2"] + TABS), r.choice(TABS)])
+            elif x < 0.90:
+                # the schema goes (with everything in it) and comes back; a name of it is used again straight away
+                steps.append(["recreate_schema", db, sc, "-"])
+                steps.append(["create_table", db, sc, t, _cols(r), None, False, False, False])
             elif x < 0.93:
                 steps.append([r.choice(["failing_create", "failing_ctas", "failing_drop_other"]), db, sc, t, _cols(r)])
             elif x < 0.96:
@@ -179,8 +204,22 @@ def _run(case: dict, env: core.Env, fs: Any) -> None:
     ucon_at: list = [("DB1", "S2")]
     model: dict[tuple, dict] = {}  # (db, sc, name) -> {"kind", "cols": [[name, type, notnull, charlen-override]], "comment", "pk"}
     ever: set = set()
+    former: dict[tuple, dict] = {}  # name -> what objects that held the name earlier declared: {"lengths": {col: {n}}, "comments": {c}}
     reused = False
     altered = False
+
+    def leaves(k: tuple) -> None:
+        """The object under name k goes away (dropped, replaced, renamed away, schema dropped): remember what it declared."""
+        o = model.get(k)
+        if o is None:
+            return
+        f = former.setdefault(k, {"lengths": {}, "comments": set()})
+        for cdef in o["cols"]:
+            n = TYPES[cdef[1]][4]
+            if n is not None and n != 16777216:
+                f["lengths"].setdefault(cdef[0], set()).add(n)
+        if o.get("comment"):
+            f["comments"].add(o["comment"].replace("''", "'"))
 
     for si, st in enumerate(case["steps"]):
         op = st[0]
@@ -194,7 +233,7 @@ def _run(case: dict, env: core.Env, fs: Any) -> None:
             if ucon_at[0] != (st[1], st[2]):
                 ucur.execute(f"USE SCHEMA {st[1]}.{_qp(st[2])}")
                 ucon_at[0] = (st[1], st[2])
-            cur, fq = ucur, st[3]
+            cur, fq = ucur, _qp(st[3])
             env.count("unqualified_after_use")
         exists = key in model
         after: Any = None
@@ -286,7 +325,7 @@ def _run(case: dict, env: core.Env, fs: Any) -> None:
             k2 = (st[1], st[2], t2)
             if not exists or model[key]["kind"] != "table" or k2 in model or _has_view_on(model, key):
                 continue
-            sql = f"ALTER TABLE {fq} RENAME TO {t2 if case.get('via_use') else _fqn(k2)}"
+            sql = f"ALTER TABLE {fq} RENAME TO {_qp(t2) if case.get('via_use') else _fqn(k2)}"
         elif op in ("comment_on", "set_comment"):
             if not exists or model[key]["kind"] != "table":
                 continue
@@ -303,6 +342,22 @@ def _run(case: dict, env: core.Env, fs: Any) -> None:
             if not exists or model[key]["kind"] != "view":
                 continue
             sql = f"DROP VIEW {fq}"
+        if op == "recreate_schema":
+            if case.get("via_use") or (st[1], st[2]) in (("DB1", "S1"), ("DB2", "S1")):
+                continue  # schemas some session of this harness stands in stay
+            scq = f"{st[1]}.{_qp(st[2])}"
+            for q in (f"DROP SCHEMA {scq}", f"CREATE SCHEMA {scq}"):
+                out = core.run_stmt(cur, q)
+                if not out["ok"]:
+                    env.witness(f"C09/rejected/{op}/{out['exc']['cls']}", f"{q}: {out['exc']}"[:600])
+                    return
+            for k in [k for k in model if k[:2] == (st[1], st[2])]:
+                leaves(k)
+                del model[k]
+            env.cover("op", op)
+            _observe(env, {"DB1": conn, "DB2": obs}, model, f"step {si} DROP SCHEMA {scq}; CREATE SCHEMA {scq}", op)
+            altered = True
+            continue
         if op == "noop":
             # statements that leave every table's metadata alone, whatever ran before them
             how = st[4]
@@ -359,9 +414,13 @@ def _run(case: dict, env: core.Env, fs: Any) -> None:
             if exists:
                 for vk in [k for k, o in model.items() if o["kind"] == "view" and o.get("on") == key]:
                     pass  # engine keeps views over replaced tables; histories avoid replacing tables with views on them
+            leaves(key)
             model[key] = after
+            if key in former:
+                after["former"] = former[key]
             ever.add(key)
         elif op in ("drop_table", "drop_view"):
+            leaves(key)
             del model[key]
         elif op == "add_column":
             model[key]["cols"].append([st[4], st[5], False])
@@ -382,6 +441,7 @@ def _run(case: dict, env: core.Env, fs: Any) -> None:
             altered = True
         elif op == "rename_table":
             k2 = (st[1], st[2], st[4])
+            leaves(key)
             model[k2] = model.pop(key)
             model[k2].setdefault("tags", set()).add("table-renamed")
             if k2 in ever:
@@ -398,8 +458,15 @@ def _run(case: dict, env: core.Env, fs: Any) -> None:
         env.nontrivial(case)
 
 
-def _cause(o: dict, col: str | None = None, field: str = "") -> str:
+def _cause(o: dict, col: str | None = None, field: str = "", got: Any = None) -> str:
     """Which earlier operation on the object can explain a metadata discrepancy in this field (part of the mechanism key)."""
+    f = o.get("former")
+    if f and got is not None:
+        # the observed value is one that an earlier object of this name declared and this object does not
+        if field in ("character_maximum_length", "varchar-length") and got in f["lengths"].get(col, ()):
+            return "value-of-a-former-holder-of-the-name"
+        if field == "comment" and got in f["comments"]:
+            return "value-of-a-former-holder-of-the-name"
     tags = set(o.get("tags", set()))
     if col is not None and col in o.get("renamed_cols", set()):
         tags.add("column-renamed")
@@ -479,7 +546,7 @@ def _observe(env: core.Env, conns: dict, model: dict, hist: str, op: str) -> boo
         if dif:
             for k3, w, g in dif:
                 kind = "stale-comment" if (g not in (None, "") and not w) else "lost-or-wrong-comment"
-                bad("information_schema.tables", f"{kind}/{_cause(model[k3], None, 'comment')}", f"(object, declared, reported): {(k3, w, g)}")
+                bad("information_schema.tables", f"{kind}/{_cause(model[k3], None, 'comment', g)}", f"(object, declared, reported): {(k3, w, g)}")
         # 2. information_schema.columns
         env.count("cmp_is_columns")
         rows = _q(obs, "SELECT table_schema, table_name, column_name, ordinal_position, data_type, character_maximum_length, numeric_precision, "
@@ -516,7 +583,7 @@ def _observe(env: core.Env, conns: dict, model: dict, hist: str, op: str) -> boo
                     field = ["", "", "", "ordinal_position", "data_type", "character_maximum_length", "numeric_precision", "numeric_scale", "is_nullable"][
                         next(i for i in range(9) if g[i] != w[i])]
                     oo_ = model[(db, key3[0], key3[1])]
-                    bad("information_schema.columns", f"{field}/{oo_['kind']}/{_cause(oo_, key3[2], field)}", f"{key3}: got {g} want {w}")
+                    bad("information_schema.columns", f"{field}/{oo_['kind']}/{_cause(oo_, key3[2], field, g[5] if field == 'character_maximum_length' else None)}", f"{key3}: got {g} want {w}")
                     break
         # 3. information_schema.views
         env.count("cmp_is_views")
@@ -608,7 +675,10 @@ def _observe(env: core.Env, conns: dict, model: dict, hist: str, op: str) -> boo
             fld = "type" if got_d[i][1] != want_d[i][1] else "nullable"
             if fld == "type":
                 fld = "varchar-length" if want_d[i][1].startswith("VARCHAR") and got_d[i][1].startswith("VARCHAR") else "type"
-            bad("describe", f"{fld}/{o['kind']}/{_cause(o, want_d[i][0], fld)}", f"{fq}: got {got_d[i]} want {want_d[i]}")
+            gl = None
+            if fld == "varchar-length" and got_d[i][1][8:-1].isdigit():
+                gl = int(got_d[i][1][8:-1])
+            bad("describe", f"{fld}/{o['kind']}/{_cause(o, want_d[i][0], fld, gl)}", f"{fq}: got {got_d[i]} want {want_d[i]}")
         env.count("cmp_select_star")
         c2 = obs.cursor()
         oo = core.run_stmt(c2, f"SELECT * FROM {fq}")
